@@ -50,7 +50,7 @@ for prop in args:
         # a seed written against one property may only be observable through another
         # property's check (C01-E: shared state that aborts the process only under
         # concurrency is the subject of C18)
-        check_prop = {"c01/E": "C18"}.get(f"{prop}/{ab}", prop.upper())
+        check_prop = {"c01/E": "C18", "c16/J": "C18", "c10/J": "C20"}.get(f"{prop}/{ab}", prop.upper())
         rc, out = sh(f"python3 /verif/tools/seedrun.py {sd} {check_prop} quick", cwd="/verif")
         try:
             r = json.loads(out)
